@@ -384,6 +384,9 @@ class Lib:
     def symbolic_comprehension(self, it, e, fr, kind, src):
         """(f(x) for x in seq) over a symbolic sequence: result is an
         uninterpreted map whose i-th element is defined pointwise on demand"""
+        from .libmodels import VDictItems
+        if isinstance(src, VDictItems):
+            return VGenExpr(e, fr, src, kind)
         c = it._norm_container(src)
         if isinstance(c, VMap):
             c = self.map_keys(it, c)
